@@ -155,9 +155,7 @@ Proof.
   repeat split.
   - intro rest. eapply raw_frame_of_bytes; try hyps; eassumption.
   - apply convert_from_raw_agrees. intro rest.
-    unfold decode_body. cbn [h' with_body_length h_Flags]. rewrite Hnc.
-    change (decode_body_parts the_msg_codec h' (body_bytes h' (f_Body f) mb ++ rest) = DOk (norm_body norm_message h' (f_Body f)) rest).
-    eapply decode_body_parts_app; try hyps; try exact Hb'; try eassumption.
+    exact (decode_body_plain_app the_msg_codec msg_ok norm_message H_rt_concrete H_len_concrete comp (f_Header f) (f_Body f) mb rest Hs Hr Hop Hb Hmb Hnc).
   - eapply convert_to_raw_plain; try hyps; eassumption.
   - exact (encode_header_ok h' Hh).
   - unfold encode_body. cbn [h' with_body_length h_OpCode h_Flags]. rewrite Hop, Z.eqb_refl. cbn [negb]. rewrite Hnc.
@@ -200,7 +198,11 @@ Qed.
 (* for ANY decompressor function (it returns a result for every input by construction) *)
 Lemma total_decode_body comp h : total (decode_body the_msg_codec comp h).
 Proof.
-  unfold decode_body. destruct (has (h_Flags h) HeaderFlagCompressed); [|apply total_decode_body_parts].
+  unfold decode_body. destruct (has (h_Flags h) HeaderFlagCompressed).
+  2:{ intro bs. set (n := if h_BodyLength h <? 0 then 0%nat else Z.to_nat (Z.min (h_BodyLength h) (zlen bs))).
+      destruct (total_decode_body_parts h (firstn n bs)) as [H1 H2].
+      destruct (decode_body_parts the_msg_codec h (firstn n bs)); try contradiction; [|split; discriminate].
+      destruct (h_BodyLength h <=? zlen bs); split; discriminate. }
   destruct comp as [c|]; [|apply total_rfail]. intro bs.
   destruct (cmp_decompress c _) as [raw|]; [|split; discriminate].
   destruct (total_decode_body_parts h raw) as [H1 H2].
